@@ -4,6 +4,7 @@ EXPLANATION = ("Contracts on the share-or-copy decision: the Generation algebra 
                "test on a real one-object heap.")
 TRUSTED = []
 ASSUMPTIONS = [
+    "clone unit: deep_clone_str/data/array/closure/app, gc.alloc(Move(ExternFunction::clone)) and Userdata::deep_clone are ASSUMED to return new objects of the receiving heap (fresh); the visited map is opaque",
     "Gc::get_type_info replaced by a non-interning stub in the coherence harness (hash maps are intractable for CBMC)",
     "termination is not proved by Kani",
 ]
@@ -22,7 +23,25 @@ def k(h, clause, functions, complete=True, **kw):
     return d
 
 
+def v(fn, clause, source):
+    return dict(engine="verus", unit="clone", function=fn, name="C13/clone/%s" % fn.replace("::", "_"), clause=clause, source=source)
+
+
 def obligations(tier):
+    return kani_obligations(tier) + [
+        v("Generation::is_root", "is_root() <=> generation == 0 (source-level twin of the Kani contract)", "vm/src/gc.rs::Generation::is_root"),
+        v("Generation::disjoint", "disjoint() < every real generation", "vm/src/gc.rs::Generation::disjoint"),
+        v("Generation::is_parent_of", "a.is_parent_of(b) <=> a < b", "vm/src/gc.rs::Generation::is_parent_of"),
+        v("Generation::can_contain_values_from", "a.can_contain_values_from(b) <=> b <= a", "vm/src/gc.rs::Generation::can_contain_values_from"),
+        v("Generation::next", "g < i32::MAX ==> next(g) == g + 1, no panic", "vm/src/gc.rs::Generation::next"),
+        v("Value::generation", "generation of a value is the generation of the heap object it points to; scalars: root", "vm/src/value.rs::Value::generation"),
+        v("Cloner::force_full_clone", "afterwards the share policy generation is below every real generation", "vm/src/value.rs::Cloner::force_full_clone"),
+        v("Cloner::deep_clone_inner", "a pointer is returned uncopied only if receiver_generation can contain its generation; otherwise the result is a new object of the receiving heap; scalars by value; policy unchanged", "vm/src/value.rs::Cloner::deep_clone_inner"),
+        v("lemma_full_clone_copies_everything", "after force_full_clone no value of a real heap is ever shared (over the two contracts)", "lemma"),
+    ]
+
+
+def kani_obligations(tier):
     G = "vm/src/gc.rs::Generation::"
     return [
         k("c13__generation__is_root_contract", "is_root() <=> generation == 0", [G + "is_root"]),
